@@ -161,9 +161,9 @@ def run(ctx):
                             jobs.append((ctx.repo, fn, D, tuple(s), ox, oy, hx, hy, r, False))
                         if hx == "ctor" and hy == "ctor":
                             jobs.append((ctx.repo, fn, D, tuple(s), ox, oy, hx, hy, reduces[0], True))
-    results = ctx.pmap(worker, jobs)
+    results = ctx.pairs(worker, jobs)
     by = {}
-    for job, r in zip(jobs, results):
+    for job, r in results:
         cfg = r["cfg"]
         nontriv = len(cfg["types"]) >= 2 and (cfg["order_x"] != cfg["order_y"] or cfg["history_x"] != cfg["history_y"])
         ev.obligation("loss", not r["problems"], tuple(str(v) for v in cfg.values()) if nontriv else None, sample=cfg if ev.obligations % 53 == 0 else None)
